@@ -583,9 +583,33 @@ func probeConcurrentFirst(a ConcArg) (string, string) {
 	reset(a.Package)
 	setup(arg)
 	alone := run(c.Fn)
+	// partner: the next call of the alphabet with the same tag (another value through the same entry points), so that state
+	// shared between calls with different arguments (a scratch buffer, a one-entry cache) shows as a foreign outcome
+	var partners []*Call // the same-tag calls that follow c in the alphabet (cyclically)
+	for i := range cs {
+		if cs[i].Name == c.Name {
+			for k := 1; k < len(cs); k++ {
+				if q := &cs[(i+k)%len(cs)]; q.Tag == c.Tag {
+					partners = append(partners, q)
+				}
+			}
+			break
+		}
+	}
+	if len(partners) == 0 {
+		partners = []*Call{c}
+	}
+	partnerAlones := map[*Call]string{}
+	for k := 0; k < 6 && k < len(partners); k++ {
+		reset(a.Package)
+		setup(arg)
+		partnerAlones[partners[k]] = run(partners[k].Fn)
+	}
 	for attempt := 0; attempt < 12; attempt++ {
 		reset(a.Package)
 		setup(arg)
+		partner := partners[(attempt/2)%len(partners)] // attempts 1,3,5,...: the 1st, 2nd, 3rd ... following call with the same tag
+		partnerAlone := partnerAlones[partner]
 		const g = 8
 		outs := make([]string, g)
 		start := make(chan struct{})
@@ -596,14 +620,35 @@ func probeConcurrentFirst(a ConcArg) (string, string) {
 			go func() {
 				defer wg.Done()
 				<-start
-				outs[i] = run(c.Fn)
+				fn, want := c.Fn, alone
+				if attempt%2 == 1 && i%2 == 1 { // odd attempts: half of the goroutines call the partner
+					fn, want = partner.Fn, partnerAlone
+				}
+				outs[i] = want
+				reps := 1
+				if attempt > 1 {
+					reps = 40 // later attempts: repeated calls (the library is warm then; shared scratch state is what is looked for)
+				}
+				for k := 0; k < reps; k++ {
+					if o := run(fn); o != want {
+						outs[i] = o
+						if i%2 == 1 && attempt%2 == 1 {
+							outs[i] = "(partner call " + partner.Name + ") " + o
+						}
+						return
+					}
+				}
 			}()
 		}
 		close(start)
 		wg.Wait()
-		for _, o := range outs {
-			if o != alone {
-				return "concurrent_first_use_differs", fmt.Sprintf("%s.%s called from %d goroutines at once as the first use of a fresh process gave %s; alone it gives %s", a.Package, a.Call, g, o, alone)
+		for i, o := range outs {
+			want := alone
+			if attempt%2 == 1 && i%2 == 1 {
+				want = partnerAlone
+			}
+			if o != want {
+				return "concurrent_first_use_differs", fmt.Sprintf("%s.%s called from %d goroutines at once from the initial state of a fresh process (odd attempts: half of them calling %s) gave %s; alone it gives %s", a.Package, a.Call, g, partner.Name, o, want)
 			}
 		}
 	}
@@ -685,7 +730,7 @@ func Phase(r *mc.Run, tags map[string][]string) {
 	pc := mc.NewProbe(r, "concurrent_first_use", func(a ConcArg) { setup(Arg{Package: a.Package, Config: a.Config}) }, probeConcurrentFirst)
 	pc.SelfReset = true
 	if r.FirstPass() || r.Replaying() {
-		r.Phase(fmt.Sprintf("serial: supplement (free-running, not exhaustive): every judged entry point of %s called from 8 goroutines at once as the first use of a fresh process, 12 attempts each", strings.Join(pkgs, ", ")), "12 attempts per call", func() {
+		r.Phase(fmt.Sprintf("serial: supplement (free-running, not exhaustive): every judged entry point of %s called from 8 goroutines at once as the first use of a fresh process (odd attempts: half of them call a partner call with other arguments; attempts 3-12: 40 calls per goroutine), 12 attempts each", strings.Join(pkgs, ", ")), "12 attempts per call", func() {
 			if mc.LibReset == nil || r.HasViolations() { // violations of the serial histories already decide the run
 				return
 			}
